@@ -11,7 +11,10 @@
 (*    RoundTrip(s)    sk[s] := from_hex_string(sk[s].to_hex_string())       *)
 (*    ImportBad(s,c)  from_hex_string of a malformed string of class c:     *)
 (*                    Err, nothing moves                                    *)
-(*    Estimate(s)     estimate_count: returns; 0 for the empty sketch       *)
+(*    Estimate(s)     estimate_count: returns; 0 for the empty sketch; the  *)
+(*                    outcome is determined by the REGISTERS alone          *)
+(*    Clear(s)        clear(): the sketch becomes the empty sketch and from *)
+(*                    then on behaves exactly like Hll8::new()              *)
 (*                                                                          *)
 (* TLC checks (MC_Hll*.cfg) the lattice laws of C20 as invariants - with    *)
 (* AllRegs = TRUE every law is evaluated with one argument taken from the   *)
@@ -87,9 +90,25 @@ ImportBad(s, c) ==
     /\ UNCHANGED <<sk, els>>
     /\ Log("impbad", s, 0, 0, 0, c, "err")
 
+(* The estimate is a function of the register state and of nothing else (no history, no    *)
+(* cached counters): the expected outcome is computed from sk[s] only.  That "zero" is also *)
+(* "no elements" is the invariant EmptyIffNoElements.  The conformance driver checks the    *)
+(* functional dependence after EVERY step of every behaviour: the live sketch and a fresh   *)
+(* sketch imported from the live sketch's export have the same registers                    *)
+(* (ExportImportIdentity), so they must estimate alike (SameRegistersSameEstimate in        *)
+(* HllDefs, judged by Trace_Hll and by the driver's verdict).                               *)
 Estimate(s) ==
     /\ UNCHANGED <<sk, els>>
-    /\ Log("est", s, 0, 0, 0, "", IF els[s] = {} THEN "zero" ELSE "count")
+    /\ Log("est", s, 0, 0, 0, "", IF sk[s] = Empty THEN "zero" ELSE "count")
+
+(* clear(): back to the initial value of the sketch - registers AND the set it stands for.  *)
+(* Because the state after clearing every sketch IS the initial state (AllClearedIsInit),   *)
+(* any behaviour of this specification may follow: the driver composes                      *)
+(* "behaviour ; Clear of every sketch ; behaviour" from the edge cover (reuse after clear). *)
+Clear(s) ==
+    /\ sk'  = [sk  EXCEPT ![s] = Empty]
+    /\ els' = [els EXCEPT ![s] = {}]
+    /\ Log("clear", s, 0, 0, 0, "", "ok")
 
 Next == \/ \E s \in Names, e \in Elems : Add(s, e)
         \/ \E s \in Names : AddRejected(s)
@@ -97,6 +116,7 @@ Next == \/ \E s \in Names, e \in Elems : Add(s, e)
         \/ \E s \in Names : RoundTrip(s)
         \/ \E s \in Names, c \in BadClasses : ImportBad(s, c)
         \/ \E s \in Names : Estimate(s)
+        \/ \E s \in Names : Clear(s)
 
 Spec == Init /\ [][Next]_vars
 
@@ -109,6 +129,10 @@ TypeOK == /\ sk \in [Names -> Regs]
 SketchOfUnion == \A s \in Names : sk[s] = SketchOf(els[s])
 
 EmptyIffNoElements == \A s \in Names : (sk[s] = Empty) <=> (els[s] = {})
+
+(* a state in which every sketch is empty is the initial state: nothing else is remembered *)
+AllClearedIsInit == (\A s \in Names : sk[s] = Empty) =>
+                        (sk = [s \in Names |-> Empty] /\ els = [s \in Names |-> {}])
 
 Others    == IF AllRegs THEN Regs ELSE {sk[t] : t \in Names}
 OtherSets == IF AllRegs THEN SUBSET Elems ELSE {els[t] : t \in Names}
@@ -134,7 +158,8 @@ MalformedRefused == \A s \in Names : \A c \in BadClasses : \A k \in Idx :
 ByteRoundTrip == \A v \in 0..255 : 16 * (v \div 16) + (v % 16) = v /\ v \div 16 \in 0..15
 
 (* --------------------------- action properties ----------------------------- *)
-Monotone   == [][\A s \in Names : Leq(sk[s], sk'[s])]_vars                     \* registers never decrease
+Monotone   == [][last'.op # "clear" => \A s \in Names : Leq(sk[s], sk'[s])]_vars   \* registers never decrease, except by clear
+ClearedIsNew == [][last'.op = "clear" => (sk'[last'.s] = Empty /\ els'[last'.s] = {})]_vars
 ReAddIsNoOp == [][\A s \in Names : (last'.op = "add" /\ els'[s] = els[s]) => sk'[s] = sk[s]]_vars
 OnlyTarget == [][\A s \in Names : s # last'.s => (sk'[s] = sk[s] /\ els'[s] = els[s])]_vars
 RefusalsChangeNothing == [][last'.res = "err" => (sk' = sk /\ els' = els)]_vars
